@@ -72,14 +72,34 @@ func (w *ConfWatcher) run() {
 	var lastCalled time.Time
 	previousWatchedPath, _ := filepath.EvalSymlinks(w.absolutePath)
 
+	// a change detected less than minInterval after the last notification
+	// is notified when the interval has elapsed, it is not dropped.
+	deferredTimer := time.NewTimer(minInterval)
+	deferredTimer.Stop()
+	deferred := false
+
+	notify := func(currentWatchedPath string) bool {
+		deferred = false
+		deferredTimer.Stop()
+
+		// wait some additional time to allow the writer to complete its job
+		time.Sleep(additionalWait)
+		previousWatchedPath = currentWatchedPath
+
+		lastCalled = time.Now()
+
+		select {
+		case w.signal <- struct{}{}:
+			return true
+		case <-w.terminate:
+			return false
+		}
+	}
+
 outer:
 	for {
 		select {
 		case event := <-w.inner.Events:
-			if time.Since(lastCalled) < minInterval {
-				continue
-			}
-
 			currentWatchedPath, _ := filepath.EvalSymlinks(w.absolutePath)
 			eventPath, _ := filepath.Abs(event.Name)
 			eventPath, _ = filepath.EvalSymlinks(eventPath)
@@ -91,15 +111,25 @@ outer:
 				(eventPath == currentWatchedPath &&
 					((event.Op&fsnotify.Write) == fsnotify.Write ||
 						(event.Op&fsnotify.Create) == fsnotify.Create)) {
-				// wait some additional time to allow the writer to complete its job
-				time.Sleep(additionalWait)
-				previousWatchedPath = currentWatchedPath
+				if elapsed := time.Since(lastCalled); elapsed < minInterval {
+					if !deferred {
+						deferred = true
+						deferredTimer.Reset(minInterval - elapsed)
+					}
+					continue
+				}
 
-				lastCalled = time.Now()
+				if !notify(currentWatchedPath) {
+					break outer
+				}
+			}
 
-				select {
-				case w.signal <- struct{}{}:
-				case <-w.terminate:
+		case <-deferredTimer.C:
+			deferred = false
+
+			currentWatchedPath, _ := filepath.EvalSymlinks(w.absolutePath)
+			if currentWatchedPath != "" {
+				if !notify(currentWatchedPath) {
 					break outer
 				}
 			}
